@@ -96,6 +96,11 @@ pub fn main(args: &[String]) -> i32 {
         let txt: &'static str = Box::leak(uncps(t).into_boxed_str());
         (txt, Arc::new(Flat::parse(txt).expect("big shared expression must parse")))
     }).collect()).unwrap_or_default();
+    // a deeply nested shared deep expression: many nested evaluations are in flight at once in every thread
+    let deep_nested: Option<(&'static str, Arc<crate::expr::Deep<'static>>)> = cfg.get("deeptext").map(|t| {
+        let txt: &'static str = Box::leak(uncps(t).into_boxed_str());
+        (txt, Arc::new(crate::expr::Deep::parse(txt).expect("nested shared expression must parse")))
+    });
     let dump_before = (shared.verif_dump(), fshared.verif_dump(), dshared.verif_dump());
     let nv = fshared.var_names().len();
     let fvals = move |tid: usize, r: usize| -> Vec<f64> { (0..nv).map(|j| 0.25 + tid as f64 * 0.5 + r as f64 * 0.125 + j as f64).collect() };
@@ -103,6 +108,7 @@ pub fn main(args: &[String]) -> i32 {
     let mut handles = vec![];
     for tid in 0..nthreads {
         let (table, shared, fshared, dshared, barrier, bigs) = (table.clone(), shared.clone(), fshared.clone(), dshared.clone(), barrier.clone(), bigs.clone());
+        let deep_nested = deep_nested.clone();
         handles.push(std::thread::spawn(move || {
             dynops::set_table(table);
             let mut ev = vec![];
@@ -118,6 +124,27 @@ pub fn main(args: &[String]) -> i32 {
                     Err(_) => ("panic", json!({"k": "none"})),
                 };
                 ev.push(json!({"tid": tid, "seq": 900 + q, "act": "eval", "text": cps(txt), "suffix": cps(&format!("#t{tid}")), "outcome": outcome, "den": den}));
+            }
+            if let Some((txt, ex)) = &deep_nested {
+                let vals: Vec<Term> = ex.var_names().iter().map(|n| Term::Var(format!("{n}#t{tid}"))).collect();
+                let mut first: Option<Value> = None;
+                barrier.wait(); // all threads enter the nested evaluations together
+                for r in 0..400 {
+                    let den = crate::util::guarded(|| ex.eval(&vals));
+                    let (outcome, den) = match den {
+                        Ok(Ok(d)) => ("ok", d.to_json()),
+                        Ok(Err(_)) => ("err", json!({"k": "none"})),
+                        Err(_) => ("panic", json!({"k": "none"})),
+                    };
+                    // every evaluation is made; one that is identical (as JSON) to the thread's first one is not recorded again
+                    let this = json!({"outcome": outcome, "den": den});
+                    if r < 1 || first.as_ref() != Some(&this) {
+                        ev.push(json!({"tid": tid, "seq": 950 + r, "act": "eval", "text": cps(txt), "suffix": cps(&format!("#t{tid}")), "outcome": outcome, "den": this["den"]}));
+                    }
+                    if first.is_none() {
+                        first = Some(this);
+                    }
+                }
             }
             for r in 0..rounds {
                 let vals: Vec<Term> = shared.var_names().iter().map(|n| Term::Var(format!("{n}#t{tid}"))).collect();
